@@ -29,7 +29,7 @@ def run(ctx):
     nf = RG.check_global_writes(ctx, led)
     led.require_min("C19.globals", nf, 50, "functions in the write census")
     npr = RG.check_ambient(ctx, led)
-    led.require_min("C19.ambient.control", npr, 20, "print/input calls found in the CLI modules (positive control)")
+    led.require_min("C19.ambient.control", npr, 8, "print/input calls found in the CLI modules (positive control)")
     nq = RG.check_quantize(ctx, led)
     led.require_min("C19.rounding", nq, 3, "quantize() call sites")
     nfun, nsets = RG.check_hashorder(ctx, led)
